@@ -637,4 +637,39 @@ example : nestGo 0 0 [.op .paren, .cl .sq] = none := by decide      -- `(]` pass
 example : matchGo [] 0 [.op .paren, .cl .sq] = some (.syntax, 1) := by decide
 
 
+
+/-! ### the soft-keyword look-ahead: the second known finding -/
+
+/-- Full statement: a lexical error on the logical line must not change how its head `match`/`case` is
+    classified — otherwise the parser fails on the re-classified head and never reports the error
+    (wrong kind, offset outside the offending construct). -/
+def softkw_error_transparent_full : Prop :=
+  ∀ pre post : List LTok, LTok.err ∉ pre → LTok.nl ∉ pre →
+    headIsKeyword (pre ++ .err :: post) = headIsKeyword (pre ++ post)
+
+/-- It fails on the unchanged code (known finding `softkw-lookahead-masks-error-on-match-case-line`):
+    `match s$:` — with the `$` the head is a NAME, without it the keyword. -/
+theorem softkw_error_transparent_fails : ¬ softkw_error_transparent_full := by
+  intro h
+  have := h [.other] [.colon, .nl] (by decide) (by decide)
+  revert this
+  decide
+
+theorem lookGo_cut (pre post : List LTok) : ∀ (n : Int) (f sl sc : Bool),
+    lookGo n f sl sc (pre ++ .err :: post) = lookGo n f sl sc pre := by
+  induction pre with
+  | nil => intro n f sl sc; simp [lookGo]
+  | cons x pre ih =>
+    intro n f sl sc
+    cases x <;> simp only [List.cons_append, lookGo, ih]
+
+/-- What does hold: the look-ahead treats the error as the end of the line — the decision is exactly
+    that of the tokens before the error (so the error is masked only when the deciding `:` comes after it). -/
+theorem softkw_error_cuts_line_partial (pre post : List LTok) :
+    headIsKeyword (pre ++ .err :: post) = headIsKeyword pre :=
+  lookGo_cut pre post 0 true false false
+
+example : headIsKeyword [.other, .colon, .nl] = true ∧ headIsKeyword [.other, .err, .colon, .nl] = false := by decide
+
+
 end PV.C04
